@@ -99,9 +99,9 @@ type field struct {
 
 type structInfo struct {
 	name    string
-	fields  []field          // translated fields, in declaration order
-	dropped []string         // fields of untranslatable type
-	fmats   []string         // [][]float32 fields
+	fields  []field  // translated fields, in declaration order
+	dropped []string // fields of untranslatable type
+	fmats   []string // [][]float32 fields
 	methods map[string]*ast.FuncDecl
 	order   []string
 }
@@ -394,9 +394,16 @@ func (f *fnTr) pure(e ast.Expr, en env) bool {
 			}
 		case *ast.IndexExpr, *ast.SliceExpr:
 			p = false
+		case *ast.CompositeLit:
+			p = false
 		case *ast.SelectorExpr:
 			if st, ok := x.X.(*ast.SelectorExpr); ok && st.Sel.Name == "Status" {
 				p = false
+			}
+			if r := rootIdent(x); r != "" && r != f.recv {
+				if b, ok := en.lookup(r); ok && b.t.k == kUnknown {
+					p = false
+				}
 			}
 		case *ast.BasicLit:
 			if x.Kind == token.FLOAT {
@@ -515,11 +522,28 @@ func (f *fnTr) expr(e ast.Expr, en env, k func(val, env) string) string {
 		if exprString(x) == "math.MaxFloat32" {
 			return k(val{"0", ty{k: kNil, lit: "math.MaxFloat32"}}, en)
 		}
+		// a field of something outside the translation (a configuration struct passed as a
+		// parameter): its value is asked of the outside world
+		if r := rootIdent(x); r != "" && r != f.recv {
+			if b, ok := en.lookup(r); ok && b.t.k == kUnknown {
+				t := f.newTmp()
+				return fmt.Sprintf("%s <- call_ext ext %s [] ;;\n%s", t, coqString("read:"+f.path(x)), k(val{t, ty{k: kExt}}, en))
+			}
+		}
 		if v, ok := eval(x, f.w.consts); ok { // time.Minute and the like
 			return k(val{fmt.Sprintf("(%d)", v), ty{k: kInt}}, en)
 		}
 		return k(val{"tt", ty{k: kUnknown}}, en)
+	case *ast.StarExpr:
+		return f.expr(x.X, en, k) // *p of a struct pointer: the struct
+	case *ast.CompositeLit:
+		return f.composite(x, en, k)
 	case *ast.UnaryExpr:
+		if x.Op == token.AND {
+			if cl, ok := x.X.(*ast.CompositeLit); ok {
+				return f.composite(cl, en, k)
+			}
+		}
 		switch x.Op {
 		case token.NOT:
 			return f.expr(x.X, en, func(v val, en env) string {
@@ -788,6 +812,10 @@ func (f *fnTr) setPath(lhs ast.Expr, v string, en env, vt ...ty) (binding, strin
 
 func (f *fnTr) call(c *ast.CallExpr, en env, k func(val, env) string) string {
 	// conversions and builtins
+	if id, ok := c.Fun.(*ast.Ident); ok && strings.HasPrefix(id.Name, "__fmatlen:") {
+		t := f.newTmp()
+		return fmt.Sprintf("%s <- call_ext ext %s [] ;;\n%s", t, coqString(strings.TrimPrefix(id.Name, "__fmatlen:")+".len"), k(val{t, ty{k: kInt}}, en))
+	}
 	if id, ok := c.Fun.(*ast.Ident); ok {
 		if _, shadow := en.lookup(id.Name); !shadow {
 			switch id.Name {
@@ -843,6 +871,27 @@ func (f *fnTr) call(c *ast.CallExpr, en env, k func(val, env) string) string {
 						return k(val{fmt.Sprintf("(wrap_u %d %s)", bits, v.code), ty{k: kInt, bits: bits, unsigned: true}}, en)
 					})
 				}
+			case "new":
+				if len(c.Args) == 1 {
+					if t := f.w.goType(c.Args[0]); t.k == kStruct {
+						return k(val{f.zeroRecord(t.name), t}, en)
+					}
+					return k(val{"tt", ty{k: kUnknown}}, en)
+				}
+			case "make":
+				if len(c.Args) == 2 {
+					if t := f.w.goType(c.Args[0]); t.k == kHList {
+						return f.expr(c.Args[1], en, func(n val, en env) string {
+							return k(val{fmt.Sprintf("(repeat (-1) (Z.to_nat %s))", n.code), ty{k: kHList}}, en)
+						})
+					}
+					if ts := exprString(c.Args[0]); ts == "[][]float32" || ts == "[]float32" {
+						return f.expr(c.Args[1], en, func(n val, en env) string {
+							return k(val{n.code, ty{k: kFMat, lit: ts}}, en) // only meaningful as the right side of an assignment to a float matrix
+						})
+					}
+				}
+				return k(val{"tt", ty{k: kUnknown}}, en)
 			case "len":
 				return f.expr(c.Args[0], en, func(v val, en env) string {
 					if v.t.k != kHList {
@@ -917,7 +966,11 @@ func (f *fnTr) call(c *ast.CallExpr, en env, k func(val, env) string) string {
 	rec = func(i int, en env) string {
 		if i == len(c.Args) {
 			t := f.newTmp()
-			return fmt.Sprintf("%s <- call_ext ext %s [%s] ;;\n%s", t, coqString(name), strings.Join(parts, "; "), k(val{t, ty{k: kExt}}, en))
+			rt := ty{k: kExt}
+			if sel, ok := c.Fun.(*ast.SelectorExpr); ok && sel.Sel.Name == "Seconds" && len(c.Args) == 0 {
+				rt = ty{k: kFloat, bits: 64} // time.Duration.Seconds()
+			}
+			return fmt.Sprintf("%s <- call_ext ext %s [%s] ;;\n%s", t, coqString(name), strings.Join(parts, "; "), k(val{t, rt}, en))
 		}
 		a := c.Args[i]
 		if f.isOpaque(a, en) || !f.translatable(a, en) {
@@ -1277,6 +1330,28 @@ func (f *fnTr) block(items []item, en env, defers []deferred) string {
 		return s.name + " (" + strings.Join(args, ", ") + ")"
 	case *ast.ForStmt:
 		return f.forStmt(s, rest, en, defers)
+	case *ast.RangeStmt:
+		// for i := range X  (index only) over a slice of frame handles or a float matrix
+		if s.Value != nil || s.Key == nil || s.Tok != token.DEFINE {
+			fail("range loop form")
+		}
+		key, ok := s.Key.(*ast.Ident)
+		if !ok {
+			fail("range loop key")
+		}
+		var bound ast.Expr
+		if name, ok := f.fmatBase(s.X, en); ok {
+			bound = &ast.CallExpr{Fun: &ast.Ident{Name: "__fmatlen:" + name}}
+		} else {
+			bound = &ast.CallExpr{Fun: &ast.Ident{Name: "len"}, Args: []ast.Expr{s.X}}
+		}
+		fs := &ast.ForStmt{
+			Init: &ast.AssignStmt{Lhs: []ast.Expr{key}, Tok: token.DEFINE, Rhs: []ast.Expr{&ast.BasicLit{Kind: token.INT, Value: "0"}}},
+			Cond: &ast.BinaryExpr{X: &ast.Ident{Name: key.Name}, Op: token.LSS, Y: bound},
+			Post: &ast.IncDecStmt{X: &ast.Ident{Name: key.Name}, Tok: token.INC},
+			Body: s.Body,
+		}
+		return f.forStmt(fs, rest, en, defers)
 	}
 	fail("statement %T", it.s)
 	return ""
@@ -1438,7 +1513,13 @@ func (f *fnTr) assign(s *ast.AssignStmt, rest []item, en env, defers []deferred)
 					return fmt.Sprintf("let %s := %s in\n%s", cn, v.code, f.block(rest, en.bind(binding{goName: id.Name, coq: cn, t: t}), defers))
 				}
 				b, _ := en.lookup(id.Name)
+				if b.t.k == kUnknown {
+					return f.block(rest, en, defers) // a variable outside the translation
+				}
 				if b.t.k == kStruct {
+					if v.t.k == kStruct && v.t.name == b.t.name {
+						return fmt.Sprintf("let %s := %s in\n%s", b.coq, v.code, f.block(rest, en, defers))
+					}
 					fail("assignment to struct variable %s", id.Name)
 				}
 				if b.t.k == kFloat && v.t.k != kFloat {
@@ -1463,7 +1544,44 @@ func (f *fnTr) assign(s *ast.AssignStmt, rest []item, en env, defers []deferred)
 				if code, ok := f.assign2(ie, v, en, func(en env) string { return f.block(rest, en, defers) }); ok {
 					return code
 				}
+				// frames[i] = v  on a slice of frame handles held in a variable or field
+				if f.translatable(ie.X, en) && f.kindOf(ie.X, en) == kHList && (v.t.k == kHandle || v.t.k == kExt) {
+					return f.expr(ie.X, en, func(l val, en env) string {
+						return f.expr(ie.Index, en, func(iv val, en env) string {
+							t := f.newTmp()
+							root, term := f.setPath(ie.X, t, en)
+							return fmt.Sprintf("%s <- lift_opt (go_set_index %s %s %s) ;;\nlet %s := %s in\n%s", t, l.code, iv.code, v.code, root.coq, term, f.block(rest, en, defers))
+						})
+					})
+				}
+				// m[i] = make([]float32, n)  on a float matrix
+				if name, ok := f.fmatBase(ie.X, en); ok && v.t.k == kFMat {
+					return f.expr(ie.Index, en, func(iv val, en env) string {
+						t := f.newTmp()
+						return fmt.Sprintf("%s <- call_ext ext %s [AInt %s; AInt %s] ;;\n%s", t, coqString(name+".makerow"), iv.code, v.code, f.block(rest, en, defers))
+					})
+				}
 				fail("assignment target %s", exprString(lhs))
+			}
+			if sel, ok := lhs.(*ast.SelectorExpr); ok {
+				// m = make([][]float32, n)
+				if name, ok := f.fmatBase(sel, en); ok && v.t.k == kFMat {
+					t := f.newTmp()
+					return fmt.Sprintf("%s <- call_ext ext %s [AInt %s] ;;\n%s", t, coqString(name+".make"), v.code, f.block(rest, en, defers))
+				}
+				// X.Status.<Field> = v  on a frame handle
+				if st, ok := sel.X.(*ast.SelectorExpr); ok && st.Sel.Name == "Status" && !f.isOpaque(st.X, en) && f.translatable(st.X, en) && f.kindOf(st.X, en) == kHandle {
+					return f.expr(st.X, en, func(h val, en env) string {
+						t := f.newTmp()
+						return fmt.Sprintf("%s <- call_ext ext %s [AFrame %s; %s] ;;\n%s", t, coqString("Frame.Status.set."+sel.Sel.Name), h.code, f.asArg(v, rhs), f.block(rest, en, defers))
+					})
+				}
+				// a field outside the translation: the value was evaluated (for what it does), nothing is stored
+				if _, _, ok := f.fieldPath(sel, en); !ok {
+					if rootIdent(sel) != "" {
+						return f.block(rest, en, defers)
+					}
+				}
 			}
 			if v.t.k == kUnknown || v.t.k == kUnit || v.t.k == kTuple {
 				fail("assignment of an untranslated value to %s", exprString(lhs))
@@ -1673,16 +1791,13 @@ func (f *fnTr) forStmt(s *ast.ForStmt, rest []item, outer env, defers []deferred
 	if assigns(bodyBlock, iv.Name) {
 		fail("loop body assigns the loop variable %s", iv.Name)
 	}
-	if !f.pure(cond.Y, en) {
-		fail("loop bound %s", exprString(cond.Y))
-	}
 	state := f.assignedIn(bodyBlock, en, iv.Name)
 	// the bound must not depend on anything the body changes
 	bad := false
 	ast.Inspect(cond.Y, func(n ast.Node) bool {
 		if id, ok := n.(*ast.Ident); ok {
 			for _, b := range state {
-				if b.goName == id.Name {
+				if b.goName == id.Name && !(isLenOf(cond.Y, id.Name) && onlyIndexAssigned(bodyBlock, id.Name)) {
 					bad = true
 				}
 			}
@@ -1710,53 +1825,54 @@ func (f *fnTr) forStmt(s *ast.ForStmt, rest []item, outer env, defers []deferred
 	if bad {
 		fail("loop bound %s changes inside the loop", exprString(cond.Y))
 	}
-	var hiCode string
-	f.expr(cond.Y, en, func(v val, _ env) string { hiCode = v.code; return "" })
+	return f.expr(cond.Y, en, func(hv val, en env) string {
+		hiCode := hv.code
 
-	var stateNames []string
-	if f.recv != "" {
-		stateNames = append(stateNames, f.recv)
-	}
-	for _, b := range state {
-		stateNames = append(stateNames, b.goName)
-	}
-	benv := en
-	if declaredHere {
-		benv = benv.bind(binding{goName: iv.Name, coq: ivCoq, t: ty{k: kInt}})
-	}
-	f.loops = append(f.loops, stateNames)
-	pat := f.loopState(benv)
-	bodyCode := f.block(append(stmts(body), item{pop: true}), benv.push(), nil)
-	f.loops = f.loops[:len(f.loops)-1]
-	init := pat
-	lamPat := "'" + pat
-	if !strings.HasPrefix(pat, "(") {
-		lamPat = pat
-	}
-	if len(stateNames) == 0 {
-		init, lamPat, pat = "tt", "_", "_"
-	}
-	lr := f.newTmp()
-	restCode := ""
-	if !declaredHere {
-		restCode = fmt.Sprintf("let %s := Z.max %s %s in\n", ivCoq, loCode, hiCode)
-	}
-	restCode += f.block(append([]item{{pop: true}}, rest...), en, defers)
-	var retCode string
-	if len(f.loops) > 0 {
-		retCode = "ret (LRet r)"
-	} else {
-		// function-level return out of the loop: deferred calls run now
-		rv := f.newTmp()
+		var stateNames []string
 		if f.recv != "" {
-			b, _ := en.lookup(f.recv)
-			retCode = fmt.Sprintf("let '(%s, %s) := r in\n%s", b.coq, rv, f.finishReturn(rv, en, defers))
-		} else {
-			retCode = fmt.Sprintf("let %s := r in\n%s", rv, f.finishReturn(rv, en, defers))
+			stateNames = append(stateNames, f.recv)
 		}
-	}
-	return fmt.Sprintf("%s <- for_range %s %s (fun %s %s => (\n%s\n)) %s ;;\nmatch %s with\n| LRet r => (\n%s\n)\n| LCont %s => (\n%s\n)\nend",
-		lr, loCode, hiCode, ivCoq, lamPat, indent(bodyCode), init, lr, indent(retCode), pat, indent(restCode))
+		for _, b := range state {
+			stateNames = append(stateNames, b.goName)
+		}
+		benv := en
+		if declaredHere {
+			benv = benv.bind(binding{goName: iv.Name, coq: ivCoq, t: ty{k: kInt}})
+		}
+		f.loops = append(f.loops, stateNames)
+		pat := f.loopState(benv)
+		bodyCode := f.block(append(stmts(body), item{pop: true}), benv.push(), nil)
+		f.loops = f.loops[:len(f.loops)-1]
+		init := pat
+		lamPat := "'" + pat
+		if !strings.HasPrefix(pat, "(") {
+			lamPat = pat
+		}
+		if len(stateNames) == 0 {
+			init, lamPat, pat = "tt", "_", "_"
+		}
+		lr := f.newTmp()
+		restCode := ""
+		if !declaredHere {
+			restCode = fmt.Sprintf("let %s := Z.max %s %s in\n", ivCoq, loCode, hiCode)
+		}
+		restCode += f.block(append([]item{{pop: true}}, rest...), en, defers)
+		var retCode string
+		if len(f.loops) > 0 {
+			retCode = "ret (LRet r)"
+		} else {
+			// function-level return out of the loop: deferred calls run now
+			rv := f.newTmp()
+			if f.recv != "" {
+				b, _ := en.lookup(f.recv)
+				retCode = fmt.Sprintf("let '(%s, %s) := r in\n%s", b.coq, rv, f.finishReturn(rv, en, defers))
+			} else {
+				retCode = fmt.Sprintf("let %s := r in\n%s", rv, f.finishReturn(rv, en, defers))
+			}
+		}
+		return fmt.Sprintf("%s <- for_range %s %s (fun %s %s => (\n%s\n)) %s ;;\nmatch %s with\n| LRet r => (\n%s\n)\n| LCont %s => (\n%s\n)\nend",
+			lr, loCode, hiCode, ivCoq, lamPat, indent(bodyCode), init, lr, indent(retCode), pat, indent(restCode))
+	})
 }
 
 // fields of the receiver that the loop body may modify ("*" = any)
@@ -2128,13 +2244,13 @@ func contains(l []string, s string) bool {
 
 var fnUnits = []*unit{
 	{name: "FrameLoop", dir: "motion", files: []string{"frameloop.go"}, structs: []string{"FrameLoop"},
-		skip: map[string]bool{}},
+		funcs: []string{"NewFrameLoop"}, skip: map[string]bool{}},
 	{name: "MotionProcessor", dir: "motion", files: []string{"motionprocessor.go", "frameloop.go"}, structs: []string{"MotionProcessor"},
-		funcs: []string{"min"}, imports: []string{"FrameLoop"}, skip: map[string]bool{}},
+		funcs: []string{"min", "NewMotionProcessor"}, imports: []string{"FrameLoop"}, skip: map[string]bool{}},
 	{name: "MotionDetector", dir: "motion", files: []string{"motion.go", "frameloop.go"}, structs: []string{"motionDetector"},
-		funcs: []string{"isAffectedByFFC", "absDiff", "warmerDiff"}, imports: []string{"FrameLoop"}, skip: map[string]bool{}},
+		funcs: []string{"isAffectedByFFC", "absDiff", "warmerDiff", "NewMotionDetector"}, imports: []string{"FrameLoop"}, skip: map[string]bool{}},
 	{name: "ThrottledRecorder", dir: "throttle", files: []string{"throttled_recorder.go"}, structs: []string{"ThrottledRecorder"},
-		skip: map[string]bool{}},
+		funcs: []string{"NewThrottledRecorder", "NewThrottledRecorderWithClock"}, skip: map[string]bool{}},
 	{name: "LogLimiter", dir: "loglimiter", files: []string{"loglimiter.go"}, structs: []string{"LogLimiter"},
 		skip: map[string]bool{"LogLimiter.Printf": true}},
 }
@@ -2287,4 +2403,118 @@ func (f *fnTr) pixRow(e ast.Expr, en env, k func(h, y, lo, hi string, en env) st
 			})
 		})
 	}), true
+}
+
+// ---------------------------------------------------------------------------------------
+// constructors: composite literals, zero values
+
+func (f *fnTr) zeroRecord(name string) string {
+	si := f.w.structs[name]
+	var parts []string
+	for _, fd := range si.fields {
+		if fd.t.k == kStruct {
+			parts = append(parts, f.zeroRecord(fd.t.name))
+		} else {
+			parts = append(parts, fd.t.zero())
+		}
+	}
+	return "(mk" + name + " " + strings.Join(parts, " ") + ")"
+}
+
+// T{field: value, ...} for a translated struct T: fields of the record in declaration order,
+// zero where the literal is silent; values given for fields outside the translation are
+// evaluated only if they are calls (for what they do), otherwise ignored
+func (f *fnTr) composite(cl *ast.CompositeLit, en env, k func(val, env) string) string {
+	t := f.w.goType(cl.Type)
+	if t.k != kStruct {
+		fail("composite literal of %s", exprString(cl.Type))
+	}
+	si := f.w.structs[t.name]
+	given := map[string]ast.Expr{}
+	var order []string
+	for _, el := range cl.Elts {
+		kv, ok := el.(*ast.KeyValueExpr)
+		if !ok {
+			fail("positional composite literal")
+		}
+		id, ok := kv.Key.(*ast.Ident)
+		if !ok {
+			fail("composite literal key")
+		}
+		given[id.Name] = kv.Value
+		order = append(order, id.Name)
+	}
+	vals := map[string]string{}
+	var rec func(i int, en env) string
+	rec = func(i int, en env) string {
+		if i == len(order) {
+			var parts []string
+			for _, fd := range si.fields {
+				if v, ok := vals[fd.name]; ok {
+					parts = append(parts, v)
+				} else if fd.t.k == kStruct {
+					parts = append(parts, f.zeroRecord(fd.t.name))
+				} else {
+					parts = append(parts, fd.t.zero())
+				}
+			}
+			return k(val{"(mk" + t.name + " " + strings.Join(parts, " ") + ")", t}, en)
+		}
+		name := order[i]
+		var ft *ty
+		for j := range si.fields {
+			if si.fields[j].name == name {
+				ft = &si.fields[j].t
+			}
+		}
+		if ft == nil {
+			if _, isCall := given[name].(*ast.CallExpr); isCall {
+				return f.expr(given[name], en, func(_ val, en env) string { return rec(i+1, en) })
+			}
+			return rec(i+1, en)
+		}
+		return f.expr(given[name], en, func(v val, en env) string {
+			switch {
+			case ft.k == kFloat:
+				return f.toFloat(v, ft.bits, en, func(v val, en env) string { vals[name] = v.code; return rec(i+1, en) })
+			case ft.k == kBool:
+				vals[name] = f.asBool(v)
+			case ft.k == kHandle && v.t.k == kNil:
+				vals[name] = "(-1)"
+			case ft.unsigned && ft.bits > 0 && !(v.t.unsigned && v.t.bits == ft.bits):
+				vals[name] = fmt.Sprintf("(wrap_u %d %s)", ft.bits, v.code)
+			case v.t.k == kUnknown || v.t.k == kUnit || v.t.k == kTuple:
+				fail("composite literal field %s has no translation", name)
+			default:
+				vals[name] = v.code
+			}
+			return rec(i+1, en)
+		})
+	}
+	return rec(0, en)
+}
+
+func isLenOf(e ast.Expr, name string) bool {
+	c, ok := e.(*ast.CallExpr)
+	if !ok || len(c.Args) != 1 {
+		return false
+	}
+	id, ok := c.Fun.(*ast.Ident)
+	return ok && id.Name == "len" && isIdentNamed(c.Args[0], name)
+}
+
+// the body changes elements of the slice but never the slice variable itself
+func onlyIndexAssigned(body ast.Node, name string) bool {
+	ok := true
+	ast.Inspect(body, func(n ast.Node) bool {
+		if as, is := n.(*ast.AssignStmt); is {
+			for _, l := range as.Lhs {
+				if isIdentNamed(l, name) {
+					ok = false
+				}
+			}
+		}
+		return ok
+	})
+	return ok
 }
